@@ -115,11 +115,230 @@ def hints_env():
     return ";".join(parts)
 
 
+# ------------------------------------------------------------------------------------------------ reach of the tie
+# The correspondence ties the model to the code the streams EXECUTE. When the source differs from the verified baseline, the lines
+# that are new (not merely moved, re-indented or re-worded inside a string literal) and lie inside functions this property's
+# streams do exercise must themselves be executed by those streams; if some never are, the tie says nothing about them and that is
+# reported as a broken correspondence ("reach"). Measured with an instrumented twin of the harness (rustc -C instrument-coverage,
+# nightly toolchain and its llvm tools), built and run only when the source differs: on the baseline nothing of this runs.
+COV_TARGET = "/var/tmp/optrs-verif-cov"
+COV_HX = os.path.join(COV_TARGET, "debug", "hx")
+COV_CLI = os.path.join(COV_TARGET, "cli", "debug", "optrs")
+LLVM_BIN = os.path.expanduser("~/.rustup/toolchains/nightly-x86_64-unknown-linux-gnu/lib/rustlib/x86_64-unknown-linux-gnu/bin")
+COV_DIR = os.path.join("/var/tmp/optrs-verif-scratch", "cov-%d" % os.getpid())
+_CHANGED = None
+_COV_READY = None
+
+
+def _norm_code(line):
+    t = re.sub(r"//.*", "", line)
+    t = re.sub(r'"(?:[^"\\]|\\.)*"', '""', t)
+    return re.sub(r"\s+", "", t)
+
+
+def changed_lines():
+    """{path relative to /repo: sorted new-side line numbers} of the lines that are new code relative to the baseline."""
+    global _CHANGED
+    if _CHANGED is not None:
+        return _CHANGED
+    base = ""
+    try:
+        base = open(BASE_COMMIT_FILE).read().strip()
+    except OSError:
+        pass
+    out = ""
+    for ref in ([base] if base else []) + ["HEAD"]:
+        try:
+            p = subprocess.run(["git", "-C", REPO, "diff", "--no-color", "-U0", ref, "--", "src"], stdout=subprocess.PIPE, stderr=subprocess.DEVNULL, timeout=60)
+        except Exception:
+            continue
+        if p.returncode == 0:
+            out = p.stdout.decode("utf-8", "replace")
+            break
+    removed = set()
+    hunks = []          # (file, [(line number, text)] added, number of removed code lines)
+    cur, ln = None, 0
+    for line in out.splitlines():
+        if line.startswith("+++ "):
+            cur = line[6:] if line.startswith("+++ b/") else None
+        elif line.startswith("@@"):
+            m = re.search(r"\+(\d+)", line)
+            ln = int(m.group(1)) if m else 0
+            hunks.append([cur, [], 0])
+        elif line.startswith("+") and not line.startswith("+++"):
+            if hunks and cur and cur.endswith(".rs"):
+                hunks[-1][1].append((ln, line[1:]))
+            ln += 1
+        elif line.startswith("-") and not line.startswith("---"):
+            c = _norm_code(line[1:])
+            removed.add(c)
+            if hunks and len(re.sub(r"[^A-Za-z0-9]", "", c)) >= 2:
+                hunks[-1][2] += 1
+    # hunks of one file that lie within 15 lines of each other are one change (diff splits a rewritten function arbitrarily)
+    merged = []
+    for f, add, n_removed in hunks:
+        start = add[0][0] if add else None
+        if merged and merged[-1][0] == f and start is not None and merged[-1][3] is not None and start - merged[-1][3] <= 15:
+            merged[-1][1].extend(add); merged[-1][2] += n_removed; merged[-1][3] = add[-1][0]
+        elif merged and merged[-1][0] == f and start is None:
+            merged[-1][2] += n_removed          # a pure deletion right after: counted with the change before it
+        else:
+            merged.append([f, list(add), n_removed, add[-1][0] if add else None])
+    res = {}
+    for f, add, n_removed, _ in merged:
+        novel = []
+        for n, text in add:
+            c = _norm_code(text)
+            if len(re.sub(r"[^A-Za-z0-9]", "", c)) < 2 or c in removed:      # punctuation only, or a line that merely moved / was re-worded
+                continue
+            novel.append(n)
+        # code that REPLACES code (a rewritten match arm, a loop turned into an iterator chain) is compared with nothing here: the
+        # lines it replaces may have been just as cold. What counts is code that was ADDED: a hunk that removes nothing, or grows
+        # well beyond what it removes.
+        if f and novel and (n_removed == 0 or len(novel) >= 2 * n_removed + 4):
+            res.setdefault(f, []).extend(novel)
+    _CHANGED = res
+    return res
+
+
+def reach_enabled():
+    return bool(changed_lines()) and os.path.exists(os.path.join(LLVM_BIN, "llvm-cov"))
+
+
+def build_cov():
+    """Build the instrumented twins (harness and CLI). Returns True when they are there."""
+    global _COV_READY
+    if _COV_READY is not None:
+        return _COV_READY
+    # (instrumented proc-macros and build scripts run inside the build: their own profile data go to a junk file, not the crate directory)
+    junk = os.path.join(COV_TARGET, "build-junk-%p.profraw")
+    env = {"RUSTFLAGS": "--cfg optrs_verif -C instrument-coverage", "CARGO_TARGET_DIR": COV_TARGET, "CARGO_BUILD_RUSTFLAGS": "", "LLVM_PROFILE_FILE": junk}
+    with Lock("cargo-cov"):
+        rc, out = _sh_plain(["cargo", "+nightly", "build", "--quiet", "--offline"], cwd=HARNESS, timeout=3000, env=env)
+        rc2, out2 = _sh_plain(["cargo", "+nightly", "build", "--quiet", "--offline", "--bin", "optrs", "--manifest-path", os.path.join(REPO, "Cargo.toml"),
+                               "--target-dir", os.path.join(COV_TARGET, "cli")], timeout=3000, env={"RUSTFLAGS": "-C instrument-coverage", "LLVM_PROFILE_FILE": junk})
+        for f in os.listdir(COV_TARGET):
+            if f.startswith("build-junk-"):
+                try:
+                    os.remove(os.path.join(COV_TARGET, f))
+                except OSError:
+                    pass
+    # never leave anything in the repository: a profile file a tool wrote there despite the setting above is removed
+    for f in os.listdir(REPO):
+        if re.fullmatch(r"default_\d+_\d+_\d+\.profraw|default\.profraw", f):
+            try:
+                os.remove(os.path.join(REPO, f))
+            except OSError:
+                pass
+    _COV_READY = (rc == 0 and os.path.exists(COV_HX))
+    return _COV_READY
+
+
+def _sh_plain(cmd, cwd=None, timeout=None, env=None):
+    e = dict(os.environ)
+    e["CARGO_NET_OFFLINE"] = "true"
+    if env:
+        e.update(env)
+    try:
+        p = subprocess.run(cmd, cwd=cwd, stdout=subprocess.PIPE, stderr=subprocess.STDOUT, timeout=timeout, env=e)
+    except subprocess.TimeoutExpired:
+        return -1, "timeout"
+    return p.returncode, p.stdout.decode("utf-8", "replace")
+
+
+def cov_twin(cmd, timeout):
+    """Run the instrumented twin of a harness command; its profile data accumulate in COV_DIR."""
+    if not (reach_enabled() and build_cov()):
+        return
+    os.makedirs(COV_DIR, exist_ok=True)
+    e = dict(os.environ)
+    e.update({"OPTRS_HINTS": hints_env(), "LLVM_PROFILE_FILE": os.path.join(COV_DIR, "p-%p-%m.profraw"), "OPTRS_CLI": COV_CLI})
+    try:
+        subprocess.run([COV_HX] + list(cmd[1:]), stdout=subprocess.DEVNULL, stderr=subprocess.DEVNULL, timeout=timeout or 3000, env=e, preexec_fn=_limit_harness)
+    except Exception:
+        pass
+
+
+def reach_report(pid):
+    """(checked, [(file, [lines])] never executed) for the new lines inside functions the streams exercise, within the property's anchor files."""
+    if not (reach_enabled() and _COV_READY and os.path.isdir(COV_DIR)):
+        return 0, []
+    import glob
+    raws = glob.glob(os.path.join(COV_DIR, "*.profraw"))
+    if not raws:
+        return 0, []
+    prof = os.path.join(COV_DIR, "merged.profdata")
+    rc, _ = _sh_plain([os.path.join(LLVM_BIN, "llvm-profdata"), "merge", "-sparse"] + raws + ["-o", prof], timeout=600)
+    if rc != 0:
+        return 0, []
+    objs = [COV_HX] + (["-object", COV_CLI] if os.path.exists(COV_CLI) else [])
+    rc, lcov = _sh_plain([os.path.join(LLVM_BIN, "llvm-cov"), "export", "-format=lcov", "-instr-profile=" + prof] + objs + ["--sources", os.path.join(REPO, "src")], timeout=600)
+    if rc != 0:
+        return 0, []
+    anchors = set()
+    try:
+        for l in open(os.path.join(VERIF, "properties.jsonl")):
+            pr = json.loads(l)
+            if pr["id"] == pid:
+                anchors = {f for f in pr["anchors"]["files"] if f.endswith(".rs")}
+    except Exception:
+        pass
+    da, fns = {}, {}
+    cur = None
+    for line in lcov.splitlines():
+        if line.startswith("SF:"):
+            cur = os.path.relpath(line[3:], REPO)
+            da.setdefault(cur, {}); fns.setdefault(cur, {})
+        elif line.startswith("DA:") and cur:
+            a, b = line[3:].split(",")[:2]
+            da[cur][int(a)] = max(da[cur].get(int(a), 0), int(b))
+        elif line.startswith("FN:") and cur:
+            a, name = line[3:].split(",", 1)
+            fns[cur].setdefault(name, [int(a.split(",")[0]), 0])
+        elif line.startswith("FNDA:") and cur:
+            c, name = line[5:].split(",", 1)
+            fns[cur].setdefault(name, [0, 0])[1] += int(c)
+    checked, missing = 0, []
+    for f, lines in changed_lines().items():
+        if (anchors and f not in anchors) or f not in da:
+            continue
+        starts = sorted({v[0] for v in fns.get(f, {}).values() if v[0] > 0})
+        def fn_of(n):
+            s0 = [x for x in starts if x <= n]
+            if not s0:
+                return None
+            lo = s0[-1]
+            hi = min([x for x in starts if x > lo] + [10 ** 9])
+            return lo, hi
+        miss = []
+        for n in lines:
+            if n not in da[f]:
+                continue                                  # not an executable line
+            rng = fn_of(n)
+            if rng is None:
+                continue
+            exercised = any(c > 0 for k, c in da[f].items() if rng[0] <= k < rng[1])
+            if not exercised:
+                continue                                  # a function this property's streams do not use: not its code
+            checked += 1
+            if da[f][n] == 0:
+                miss.append(n)
+        if miss:
+            missing.append((f, miss))
+    try:
+        import shutil
+        shutil.rmtree(COV_DIR, ignore_errors=True)
+    except Exception:
+        pass
+    return checked, missing
+
+
 def sh(cmd, cwd=None, timeout=None, env=None, input_bytes=None):
     e = dict(os.environ)
     e["CARGO_NET_OFFLINE"] = "true"
     if cmd and cmd[0] == HX:
         e["OPTRS_HINTS"] = hints_env()
+        cov_twin(cmd, timeout)
     if env:
         e.update(env)
     pre = _limit_harness if cmd and cmd[0] == HX else None
@@ -557,6 +776,18 @@ def finish(res, level, checker_cmd, rule, explanation=None):
     if any(k == "translate" for k, _, _ in res.broken):
         # the theorems were checked against stale generated files: nothing is established about the current source
         res.discharged = []
+    try:
+        n_reach, unreached = reach_report(pid)
+    except Exception as ex:      # the reach measurement is an extra: its own failure is a note, never an alarm
+        n_reach, unreached = 0, []
+        res.notes.append(f"reach of the changed lines could not be measured ({type(ex).__name__}: {ex})")
+    if changed_lines():
+        res.stats["changed_lines_inside_exercised_functions"] = n_reach
+        res.stats["changed_lines_never_executed"] = "; ".join(f"{f}:{','.join(map(str, ls))}" for f, ls in unreached) or "none"
+    for f, ls in unreached:
+        res.broken.append(("reach", f"{f} lines {','.join(map(str, ls[:12]))}",
+                           "these lines are new relative to the verified baseline, lie inside functions this property's correspondence streams exercise, "
+                           "and were executed by none of their inputs: the tie between model and code does not cover them"))
     known = [k for k in load_known() if k["property"] == pid and k.get("status") == "known"]
     reported = []
     for what, replay in res.violations:
